@@ -58,6 +58,7 @@ class LoopSpec:
         self.tree = compile_expr(self.inv_src)
         self.modsrc = modsrc
         self.lists = spec.get("lists", {})          # name -> (min_len, max_len)
+        self.enums = spec.get("enums", {})          # name -> (lo, hi): integer locals enumerated case by case
         self.streams = spec.get("streams", [])      # names
         self.ghost = spec.get("ghost", {})          # name -> init expression
         self.step = compile_expr(spec["step"]) if "step" in spec else None
